@@ -28,6 +28,8 @@ func genC17(seed uint64, tier string) *world.Scenario {
 	sc.Tick, sc.TempPoll, sc.RpmPoll = ms(250), ms(250), ms(500)
 	sc.ParallelInit = true
 	nchips := r.Range(1, 4)
+	// channel numbers up to 7, or (a third of the trees) up to 14: multi-digit fan10.. / temp12..
+	maxCh := kernel.Pick(kernel.NewRand(seed, "c17.maxch"), 7, 7, 12, 14)
 	usedNames := map[string]bool{}
 	for i := 0; i < nchips; i++ {
 		name := kernel.Pick(r, chipNames...)
@@ -37,7 +39,7 @@ func genC17(seed uint64, tier string) *world.Scenario {
 		usedNames[name] = true
 		c := world.ChipSpec{Dir: fmt.Sprintf("hwmon%d", i), Name: name, Bus: kernel.Pick(r, 1, 1, 2, 4, 5), BusNr: r.Range(0, 1), Addr: 0x290 + 0x10*i}
 		// devices that exist on the chip without being configured
-		for ch := 1; ch <= 7; ch++ {
+		for ch := 1; ch <= maxCh; ch++ {
 			if r.Bool(0.35) {
 				c.ExtraFans = append(c.ExtraFans, ch)
 			}
@@ -84,13 +86,13 @@ func genC17(seed uint64, tier string) *world.Scenario {
 	ns := r.Range(1, 2)
 	for i := 0; i < ns; i++ {
 		chip := r.Intn(nchips)
-		n := r.Range(1, 7)
+		n := r.Range(1, maxCh)
 		guard := 0
-		for (containsInt(sc.Chips[chip].ExtraTemps, n) || sensorTaken(sc, chip, n)) && guard < 14 {
-			n = n%7 + 1
+		for (containsInt(sc.Chips[chip].ExtraTemps, n) || sensorTaken(sc, chip, n)) && guard < 30 {
+			n = n%maxCh + 1
 			guard++
 		}
-		if guard >= 14 {
+		if guard >= 30 {
 			// every temperature input of this chip is an unconfigured one: free the chosen slot
 			sc.Chips[chip].ExtraTemps = removeInt(sc.Chips[chip].ExtraTemps, n)
 		}
@@ -99,13 +101,13 @@ func genC17(seed uint64, tier string) *world.Scenario {
 	nf := r.Range(1, 3)
 	for i := 0; i < nf; i++ {
 		chip := r.Intn(nchips)
-		ch := r.Range(1, 7)
+		ch := r.Range(1, maxCh)
 		guard := 0
-		for (containsInt(sc.Chips[chip].ExtraFans, ch) || fanTaken(sc, chip, ch)) && guard < 14 {
-			ch = ch%7 + 1
+		for (containsInt(sc.Chips[chip].ExtraFans, ch) || fanTaken(sc, chip, ch)) && guard < 30 {
+			ch = ch%maxCh + 1
 			guard++
 		}
-		if guard >= 14 {
+		if guard >= 30 {
 			continue
 		}
 		f := world.FanSpec{ID: fmt.Sprintf("f%d", i), Kind: "hwmon", Curve: "c0", Chip: chip, Channel: ch, Algo: world.AlgoSpec{Kind: "direct"}}
@@ -161,7 +163,7 @@ func genC17(seed uint64, tier string) *world.Scenario {
 			}
 			if last && missing == "fan-channel" {
 				// a channel the named chip does not have - preferably one that another chip does have
-				ch = 9
+				ch = 19
 				own := chipFanChannels(sc, f.Chip)
 				for c := range sc.Chips {
 					for _, oc := range chipFanChannels(sc, c) {
@@ -312,6 +314,10 @@ func runC17(t *testing.T, sc *world.Scenario) *check.Result {
 		worldDir, outDir := l2Dirs()
 		co := runChild(&childSpec{Scenario: isc, WorldDir: worldDir, OutDir: outDir}, 90*time.Second)
 		accumulate(res, co)
+		if stuckViolation(res, "C17", co) {
+			l2Cleanup(worldDir)
+			return res
+		}
 		if co.Harness != "" {
 			res.Harness = co.Harness + "\n" + tailStr(co.Stderr, 1200)
 			l2Cleanup(worldDir)
